@@ -187,7 +187,7 @@ SPEC = PropertySpec(
     rule=('random operation sequences (1-12 ops quick, 1-30 thorough) over 1-2 dyadic trajectories (1-7 frames, 2-4 atoms of 1-3 species) '
           'on pool lattices: reads (positions, displacements, cumulative displacements, distances, base positions), read-only analysis '
           'queries (volume, speed, MSD, tracer diffusivity, density), filter by species sets, slices with random start/stop/step '
-          '(None, negative, out of range), extend, on sources and on derived objects. After the sequence every object must denote '
+          '(None, negative, out of range), the same frame selections given as a list / integer array of indices, extend, on sources and on derived objects. After the sequence every object must denote '
           'exactly the frames/atoms a plain numpy replay of the history selects (positions modulo 1, species order, lattice, time '
           'step, metadata); every intermediate read is compared EXACTLY with the Lean state machine (GModel.Traj). Trajectory.split '
           'on sources in either storage mode. Non-trivial: a mode-switching read before a derived operation and a face crossing; '
